@@ -43,7 +43,7 @@ class RetAddr:
 def preprocess(path, incs=(), defs=()):
     """gcc -E with all host target macros removed (-undef) and the target's macros given explicitly, so that
     ascon-select-backend.h and the file's own #if select what the target compiler would select."""
-    cmd = ["gcc", "-E", "-undef", "-x", "assembler-with-cpp"] + ["-I" + i for i in incs] + ["-D" + d for d in defs] + [path]
+    cmd = ["gcc", "-E", "-undef", "-D__ELF__", "-x", "assembler-with-cpp"] + ["-I" + i for i in incs] + ["-D" + d for d in defs] + [path]
     p = subprocess.run(cmd, stdout=subprocess.PIPE, stderr=subprocess.PIPE)
     if p.returncode != 0:
         raise Stuck("gcc -E failed: " + p.stderr.decode()[-500:])
